@@ -241,78 +241,6 @@ theorem decodeUntilMarkerC_eq (l : EmLayout) (hl : l.ok) (item : Dop) : ∀ (cs 
       simp only [run_modifyS, hd1, Bool.false_eq_true, if_false, h1, run_bind, run_getS, run_ite, hadv', h2, run_pure]
       rfl
 
-/-! ### data objects that can only be encoded while `is_end_of_pdu` is cleared -/
-
-/-- `DComp.Ok` with the encoder refinement restricted: if `mid`, only from states with `is_end_of_pdu` cleared -/
-structure DComp.OkM (c : DComp) (mid : Bool) : Prop where
-  good : Good c.pair
-  sup_ne_none : c.sup ≠ PVal.none
-  originFree : OriginFree c.pair
-  dec_originFree : ∀ (d : DecState) (o : Nat),
-    c.pair.dec { d with origin := o } = ((c.pair.dec d).1, { (c.pair.dec d).2 with origin := o })
-  fits_originFree : ∀ (d : DecState) (o : Nat), c.pair.fits { d with origin := o } = c.pair.fits d
-  encode_eq : ∀ (fuel : Nat), c.need ≤ fuel → ∀ (s : EncState), s.cursorBit = 0 → (c.eopOnly = true → s.isEndOfPdu = true) →
-    (mid = true → s.isEndOfPdu = false) →
-    ∃ s', encodeDop fuel c.dop c.sup s true = .ok ((), s') ∧ SameCore s' (c.pair.enc s) ∧ s'.cursorBit = 0
-  enc_cursor : ∀ (s : EncState), (c.pair.enc s).cursorByte = s.cursorByte + c.size
-  dec_cursorBit : ∀ (d : DecState), d.cursorBit = 0 → (c.pair.dec d).2.cursorBit = 0
-  dec_msg : ∀ (d : DecState), (c.pair.dec d).2.msg = d.msg
-  dec_origin : ∀ (d : DecState), (c.pair.dec d).2.origin = d.origin
-  decode_eq : ∀ (fuel : Nat), c.need ≤ fuel → ∀ (d : DecState), d.cursorBit = 0 → c.pair.fits d → c.decPre d →
-    decodeDop fuel c.dop d true = .ok ((c.pair.dec d).1, (c.pair.dec d).2)
-
-theorem DComp.Ok.toM {c : DComp} (h : c.Ok) (mid : Bool) : c.OkM mid :=
-  { good := h.good, sup_ne_none := h.sup_ne_none, originFree := h.originFree, dec_originFree := h.dec_originFree,
-    fits_originFree := h.fits_originFree, encode_eq := fun fuel hf s hcb he _ => h.encode_eq fuel hf s hcb he,
-    enc_cursor := h.enc_cursor, dec_cursorBit := h.dec_cursorBit, dec_msg := h.dec_msg, dec_origin := h.dec_origin,
-    decode_eq := h.decode_eq }
-
-/-- a VALUE parameter typed by a data object that needs the flag cleared needs the flag cleared -/
-theorem Comp.ofValueM_ok (name : String) (bp : Option Nat) (c : DComp) (mid : Bool) (hc : c.OkM mid) (P : EncState → Prop) :
-    (Comp.ofValue name bp c).OkM mid P where
-  good := hc.good.atPos bp
-  notKey := rfl
-  supplied := fun _ => rfl
-  sup_ne_none := by
-    have := hc.sup_ne_none
-    simpa [Comp.ofValue] using this
-  encode_eq := by
-    intro fuel hf s heop hmid _
-    obtain ⟨f, rfl⟩ : ∃ f, fuel = f + 1 := ⟨fuel - 1, by simp only [Comp.ofValue] at hf; omega⟩
-    obtain ⟨s1, hrun, hcore, _⟩ := hc.encode_eq f (by simp only [Comp.ofValue] at hf; omega)
-      { s with cursorByte := posOf bp s.origin s.cursorByte, cursorBit := 0 } rfl heop hmid
-    refine ⟨{ s1 with cursorBit := 0 }, ?_, ?_⟩
-    · simp only [Comp.ofValue]
-      rw [encodeParam_value_step]
-      simp only [Option.getD_none]
-      rw [hrun]
-    · have hin : SameCore { s with cursorByte := posOf bp s.origin s.cursorByte, cursorBit := 0 }
-          { s with cursorByte := posOf bp s.origin s.cursorByte } := ⟨rfl, rfl, rfl, rfl, rfl⟩
-      have h2 := hcore.trans (hc.good.core _ _ hin)
-      exact ⟨h2.1, h2.2.1, h2.2.2.1, h2.2.2.2.1, h2.2.2.2.2⟩
-  enc_cursor := fun s => hc.enc_cursor { s with cursorByte := posOf bp s.origin s.cursorByte }
-  cur_shift := by
-    intro org c p
-    simp only [Comp.ofValue, posOf_shift]
-    omega
-  dec_cursorBit := fun d h => hc.dec_cursorBit { d with cursorByte := posOf bp d.origin d.cursorByte } h
-  dec_msg := fun d => hc.dec_msg { d with cursorByte := posOf bp d.origin d.cursorByte }
-  dec_origin := fun d => hc.dec_origin { d with cursorByte := posOf bp d.origin d.cursorByte }
-  decode_eq := by
-    intro fuel hf d hcb hfit hpre
-    obtain ⟨f, rfl⟩ : ∃ f, fuel = f + 1 := ⟨fuel - 1, by simp only [Comp.ofValue] at hf; omega⟩
-    have hd1 : ({ d with cursorByte := posOf bp d.origin d.cursorByte, cursorBit := 0 } : DecState) =
-        { d with cursorByte := posOf bp d.origin d.cursorByte } := by rw [← hcb]
-    have hrun := hc.decode_eq f (by simp only [Comp.ofValue] at hf; omega)
-      { d with cursorByte := posOf bp d.origin d.cursorByte } hcb hfit hpre
-    have hcb2 := hc.dec_cursorBit { d with cursorByte := posOf bp d.origin d.cursorByte } hcb
-    simp only [Comp.ofValue]
-    rw [decodeParam_value_step]
-    simp only [Option.getD_none]
-    rw [hd1, hrun]
-    simp only [Pair.atPos]
-    rw [DecState.cursorBit_eta _ hcb2]
-
 /-! ### the encoder, one unfolding -/
 
 theorem encodeDop_em_step_eop (f : Nat) (tv : IVal) (td item : Dop) (xs : List PVal) (s : EncState)
